@@ -147,6 +147,15 @@ def _sum_range(rng: ast.Call) -> ast.AST:
     if not core.match_template(step, ast.Constant(value=1)):
         raise ValueError("Only a range with step 1 has this closed form")
 
+    # An empty range sums to 0, while the closed form is minus the sum of the reversed range. Which of
+    # the two it is must be known here, so both bounds have to be integer constants.
+    start_value, end_value = _constant_int(start), _constant_int(end)
+    if start_value is None or end_value is None:
+        raise ValueError("The closed form needs start <= stop, which is only known for constants")
+
+    if start_value > end_value:
+        return ast.Constant(value=0, kind=None)
+
     if core.match_template(start, ast.Constant(value=0)):
         return _sum_int_squares_to(end)
 
@@ -166,6 +175,19 @@ def _integrate_over(expr: ast.AST, generators: Sequence[ast.comprehension]) -> a
         integrand = _parse_sympy_expr(core.unparse(comprehension.target).strip())
         if isinstance(comprehension.iter, ast.Call):
             start, end, step = _get_range_start_end(comprehension.iter)
+            constants = [_constant_int(bound) for bound in (start, end, step)]
+            if None not in constants and constants[2] != 0:
+                # With constant bounds the terms are known: those for start + step * i, with i from 0
+                # to their count - 1. The sum of no terms is 0, not minus a sum as sympy has it.
+                first, _, stride = constants
+                term_count = len(range(*constants))
+                if term_count == 0:
+                    return ast.Constant(value=0, kind=None)
+
+                sym_expr = sym_expr.subs(integrand, first + stride * integrand)
+                sym_expr = sympy.Sum(sym_expr, (integrand, 0, term_count - 1))
+                continue
+
             lower = _parse_sympy_expr(core.unparse(start).strip())
             upper = _parse_sympy_expr(core.unparse(end).strip())
             step = _parse_sympy_expr(core.unparse(step).strip())
